@@ -365,6 +365,11 @@ func (fa *FuncAnalysis) Reach(target func(ssa.Instruction) bool, o ReachOpts) ([
 			if cutEdge(b, si) {
 				continue
 			}
+			if iff := blockIf(b); iff != nil {
+				if cv, ok := constBool(iff.Cond); ok && (si == 0) != cv {
+					continue // branch on a constant: the other edge is dead
+				}
+			}
 			nk := known
 			if ck, ok := fa.condKey[b]; ok && !o.NoPrune && len(b.Succs) == 2 {
 				val := (si == 0) != ck.neg
@@ -658,4 +663,34 @@ func isErrorType(t interface{ String() string }) bool { return t.String() == "er
 func isBoolType(t interface{ String() string }) bool {
 	s := t.String()
 	return s == "bool" || s == "untyped bool"
+}
+
+// constBool evaluates conditions that are constants (or a phi of equal constants,
+// the shape of `x && false`).
+func constBool(v ssa.Value) (bool, bool) {
+	switch x := v.(type) {
+	case *ssa.Const:
+		if x.Value != nil && (x.Value.ExactString() == "true" || x.Value.ExactString() == "false") {
+			return x.Value.ExactString() == "true", true
+		}
+	case *ssa.UnOp:
+		if x.Op == token.NOT {
+			b, ok := constBool(x.X)
+			return !b, ok
+		}
+	case *ssa.Phi:
+		var val, set bool
+		for _, e := range x.Edges {
+			b, ok := constBool(e)
+			if !ok {
+				return false, false
+			}
+			if set && b != val {
+				return false, false
+			}
+			val, set = b, true
+		}
+		return val, set
+	}
+	return false, false
 }
